@@ -3,7 +3,7 @@
 # seeded/RESULTS.md.  /repo must be clean; every patch is applied and reset in turn.  Not registered in MANIFEST.json (it edits /repo's tree).
 cd /verif || exit 3
 out=seeded/RESULTS.md
-{
+[ -z "$APPEND" ] && {
 echo "# seeded changes vs checks (quick tier)"
 echo
 echo "/repo HEAD: $(git -C /repo rev-parse --short HEAD)   /verif HEAD: $(git rev-parse --short HEAD)"
